@@ -55,7 +55,17 @@ def steps_search(inp):
                     if abs(q - near) >= Fraction(1, 10 ** 6) and got != q.numerator // q.denominator:
                         return {'violates': True, 'input': {'start_time': start, 'end_time': end, 'dt': dt},
                                 'observed_steps': int(got), 'required_steps': int(q.numerator // q.denominator)}
-    return {'violates': False, 'searched': 'dt in 10 literals x start in 3 x m<=1000, and ends just below grid points'}
+    # other time units (dt from 1e-9 to 1e3): an off-grid end is floored whatever the unit
+    for dt in (2e-9, 1e-6, 3e-4, 2.5, 1e3):
+        for start in (0.0, 7 * dt):
+            for mf in (2.6, 9.75, 100.5, 3.2):
+                end = start + mf * dt
+                got = _steps_real(target, start, end, dt)
+                q = (Fraction(end) - Fraction(start)) / Fraction(dt)
+                if abs(q - round(q)) >= Fraction(1, 10 ** 6) and got != q.numerator // q.denominator:
+                    return {'violates': True, 'input': {'start_time': start, 'end_time': end, 'dt': dt},
+                            'observed_steps': int(got), 'required_steps': int(q.numerator // q.denominator)}
+    return {'violates': False, 'searched': 'dt in 10 literals x start in 3 x m<=1000, ends just below grid points, and dt from 1e-9 to 1e3'}
 
 
 def compute_dynamics_times(inp):
